@@ -1,11 +1,12 @@
-"""C01 implementation driver: drives the REAL DevOutThread.ingest / DevInThread.serialize
+"""C01 implementation driver: drives the REAL DevOutThread.run (hence ingest) / DevInThread.serialize
 of the tree on PYTHONPATH with the real ProtocolHub.
 
 stdin (JSON), all fields optional:
   "messages": [[factory_name, n, seed, target_or_null], ...]   build real hub messages
   "pbmut":    true                                             protobuf-level value mutations of every kind
   "parse":    [payload_hex, ...]                               standalone hub.parse outcomes
-  "cases":    [[chunk_hex, ...], ...]                          scripted read() chunk lists
+  "cases":    [[chunk_hex | null, ...], ...]                   scripted read() results (null = None, "" = b''),
+                                                               consumed by the real DevOutThread.run loop
   "sweep":    {"tokens": [hex,...], "maxlen": n, "minlen": m, "first": [i,...] | null, "second": [i,...] | null}
 stdout: RESULT {"messages": [{"ser": hex, "frame": hex, "rt": outcome of hub.parse(ser)} | {"exc": cls}],
                 "parse": [outcome], "cases": [{"out": [hex], "exc": cls|null, "table": [[hex, outcome]]}],
@@ -15,25 +16,36 @@ outcome = ["same"] | ["msg", hex] | ["none"] | ["raise", cls]
 """
 import sys, json, logging, random, itertools, signal
 logging.disable(logging.CRITICAL)
-from whad.device.device import Device, DevOutThread, DevInThread
+from whad.device.device import Device, DevOutThread, DevInThread, DeviceEvt
+from whad.exceptions import WhadDeviceNotReady
 from whad.hub.ble import Direction as BleDirection
 from whad.hub.generic.verbose import Verbose
 from whad.hub.generic.debug import Debug
 
 
 class ScriptedDevice(Device):
-    """A Device without transport; put_message records what ingest delivers."""
+    """A Device without transport: read() replays a scripted schedule of results (bytes, b'' or
+    None) and then raises WhadDeviceNotReady, which ends DevOutThread.run; put_message records
+    what the reader thread delivers."""
     INTERFACE_NAME = "verif"
 
     def __init__(self):
         super().__init__(index=0)
         self.got = []
+        self.script = iter(())
 
     def is_open(self):
         return True
 
+    def read(self):
+        try:
+            return next(self.script)
+        except StopIteration:
+            raise WhadDeviceNotReady() from None
+
     def put_message(self, message):
-        self.got.append(message)
+        if not isinstance(message, DeviceEvt):
+            self.got.append(message)
 
 
 class IngestHang(Exception):
@@ -296,12 +308,12 @@ def run_case(chunks):
     DEV.got = []
     PARSE_LOG.clear()
     t = DevOutThread(DEV)
+    DEV.script = iter(chunks)
     exc = None
     signal.alarm(WATCHDOG_S)
     try:
-        for c in chunks:
-            t.ingest(c)
-    except Exception as e:  # noqa  (the reader thread would be dead now: stop feeding)
+        t.run()            # the real reader loop, synchronously, until read() raises WhadDeviceNotReady
+    except Exception as e:  # noqa  (the reader thread is dead now)
         exc = type(e).__name__
         if isinstance(e, IngestHang):
             HANGS[0] += 1
@@ -353,9 +365,9 @@ def run_sweep(spec):
                 t = fresh()
                 exc = None
                 signal.alarm(WATCHDOG_S)
+                DEV.script = iter(chunks)
                 try:
-                    for c in chunks:
-                        t.ingest(c)
+                    t.run()
                 except Exception as e:  # noqa
                     exc = type(e).__name__
                     if isinstance(e, IngestHang):
@@ -395,7 +407,7 @@ def main():
     if "parse" in req:
         res["parse"] = [outcome_of(bytes.fromhex(h), _REAL_PARSE)[0] for h in req["parse"]]
     if "cases" in req:
-        res["cases"] = [run_case([bytes.fromhex(c) for c in chunks]) for chunks in req["cases"]]
+        res["cases"] = [run_case([None if c is None else bytes.fromhex(c) for c in chunks]) for chunks in req["cases"]]
     if req.get("sweep"):
         res["sweep"] = run_sweep(req["sweep"])
     print("RESULT " + json.dumps(res))
